@@ -1,0 +1,32 @@
+// +build verif
+
+package hc
+
+import (
+	"context"
+	"time"
+
+	hostpkg "github.com/samaritan-proxy/samaritan/host"
+	loggerpkg "github.com/samaritan-proxy/samaritan/logger"
+	"github.com/samaritan-proxy/samaritan/pb/config/hc"
+)
+
+type verifChecker func(addr string, timeout time.Duration) error
+
+func (f verifChecker) Check(addr string, timeout time.Duration) error { return f(addr, timeout) }
+
+// VerifNewMonitor builds a monitor whose checker is the given function
+// (verification builds only).
+func VerifNewMonitor(config *hc.HealthCheck, hostSet *hostpkg.Set, check func(addr string, timeout time.Duration) error) *Monitor {
+	ctx, cancel := context.WithCancel(context.Background())
+	return &Monitor{
+		logger:           loggerpkg.Get(),
+		ctx:              ctx,
+		cancel:           cancel,
+		done:             make(chan struct{}),
+		config:           config,
+		strategyUpdateCh: make(chan struct{}, 1),
+		checker:          verifChecker(check),
+		hostSet:          hostSet,
+	}
+}
